@@ -10,15 +10,15 @@ from vp import registry  # noqa: E402
 TEXT = {
     "C01": "Bounded model checking of the real wait/stop/terminate/kill/destroy code against a symbolic child: every exit code 0..255 and signal 1..64 (+core flag) through the real wait-status macros, every timing of the child's end relative to one stop/wait call preceded by an optional wait and arbitrary passage of time, plus one- and two-call histories from every abstract handle state; Windows process_wait for every 32-bit exit code.",
     "C02": "Bounded model checking of reproc_read/write/close (and start-up input in H_start) against a model child that writes, reads and closes at solver-chosen moments: byte-exact order per stream, end-of-stream only after complete delivery, stdin fidelity and EOF, for every interleaving within 3 parent calls x 3 child actions (thorough 4 x 4) over a 2-byte pipe.",
-    "C03": "Bounded model checking: path_prepend_cwd/path_is_relative with the growth increment scaled to 4 over every cwd <= 10 bytes and path <= 3 bytes with failing getcwd/calloc/realloc in a canary-guarded arena; strv_concat/strv_free over all small vectors with allocation faults; and the child side of the real reproc_start checked at exec (program string, argv identity, environment contents, chdir).",
-    "C04": "Bounded model checking of the real reproc_start on both sides of fork with symbolic options (every accepted redirect combination), descriptor table, signal mask and up to F injected failures (any errno, EINTR included) at every modelled call: all-or-nothing, real cause, child reaped, success only after the child confirmed its launch.",
-    "C05": "The model's descriptor/allocation ledger asserted in every start path (with faults, failing close included), in destroy from every abstract handle state, in call histories and in run: each close hits an open library-owned descriptor, table and heap equal the initial ones afterwards, child reaped at most once.",
-    "C06": "Every kill()/waitpid() reaching the model is asserted to target the positive pid that fork returned for this handle while that child is unreaped; after a status is known terminate/kill send nothing; start with allocation faults never leaves a running handle without pid.",
+    "C03": "Bounded model checking: path_prepend_cwd/path_is_relative with the growth increment scaled to 4 over every cwd <= 10 bytes and path <= 3 bytes with failing getcwd/calloc/realloc in a canary-guarded arena; strv_concat/strv_free over all small vectors with allocation faults; and the child side of the real reproc_start checked at exec (program string, argv identity, environment contents, chdir). Windows: the real process_start must hand CreateProcessW the joined command line, the environment block (parent entries if extending + extras) and the working directory it was given.",
+    "C04": "Bounded model checking of the real reproc_start on both sides of fork with symbolic options (every accepted redirect combination), descriptor table, signal mask and up to F injected failures (any errno, EINTR included) at every modelled call: all-or-nothing, real cause, child reaped, success only after the child confirmed its launch. Windows: the real process_start and redirect_init with every Win32 call / allocation failing one at a time (success only if CreateProcessW succeeded, the failing call's error otherwise).",
+    "C05": "The model's descriptor/allocation ledger asserted in every start path (with faults, failing close included), in destroy from every abstract handle state, in call histories and in run: each close hits an open library-owned descriptor, table and heap equal the initial ones afterwards, child reaped at most once. Windows: the real process_start / redirect_init / redirect_destroy release every block, environment block, attribute list, thread handle and library-opened handle on every path.",
+    "C06": "Every kill()/waitpid() reaching the model is asserted to target the positive pid that fork returned for this handle while that child is unreaped; after a status is known terminate/kill send nothing; start with allocation faults never leaves a running handle without pid. Windows: process_terminate / process_kill signal exactly the given child (its own process group / handle).",
     "C07": "One reproc_stop with a fully symbolic triple of (action in -1..4, timeout in {deadline, infinite, 0, any finite}) on a running / exited / reaped child with symbolic behaviour, compared with a reference semantics written from the documentation: signals, their order and exact virtual times, return value, elapsed time, permission to block forever.",
     "C08": "expiry/find_earliest_deadline at full width over 3 (4) sources; the real now(); reproc_wait against the reference; reproc_poll over constructed handles in arbitrary valid states with symbolic deadlines/timeouts: never past min(timeout, earliest deadline), 0 exactly at the timeout, only DEADLINE on the earliest source, expired deadlines immediately; stored deadline = start time + option.",
     "C09": "reproc_poll over 2 (3) sources whose handles are constructed in arbitrary states satisfying the representation invariant (per stream: no pipe / open with data pending / closed by the child), symbolic interests, child running/dead/reaped: events subset of interests, empty sources silent, count exact, reported events true and complete, EPIPE exactly when nothing is pollable.",
-    "C10": "Child side of the real reproc_start: at exec (and at return in fork mode) descriptors 0,1,2 are asserted to be exactly the requested object with the right access mode for every accepted redirect combination, absent parent streams, user handles/FILEs in two layouts; parent side: a pipe end is held exactly for piped streams and no caller descriptor is altered.",
-    "C11": "Child side of the real reproc_start with unrelated descriptors (incl. the highest permitted number, with and without FD_CLOEXEC), every modelled descriptor limit: at exec the only descriptor besides 0,1,2 that survives is the write end of the exit-detection pipe.",
+    "C10": "Child side of the real reproc_start: at exec (and at return in fork mode) descriptors 0,1,2 are asserted to be exactly the requested object with the right access mode for every accepted redirect combination, absent parent streams, user handles/FILEs in two layouts; parent side: a pipe end is held exactly for piped streams and no caller descriptor is altered. The parent's own descriptors 0-2 are open in the ordinary jobs; the region where one is closed (or a HANDLE redirect names 1/2) is known finding D10, explored by a separate job that must keep showing it. Windows: redirect_init/redirect_destroy over the real redirect.windows.c and the handles the real process_start passes to CreateProcessW, against stubbed Win32 calls.",
+    "C11": "Child side of the real reproc_start with unrelated descriptors (incl. the highest permitted number, with and without FD_CLOEXEC), every modelled descriptor limit: at exec the only descriptor besides 0,1,2 that survives is the write end of the exit-detection pipe. Known finding D10 (exit pipe landing on 0-2) is explored by a separate region job. Windows: the real process_start must restrict inheritance to exactly the three streams and the exit handle (attribute list, inherit flags), and no Windows unit may keep mutable static storage.",
     "C12": "Both sides of the real reproc_start with a symbolic initial signal mask and injected failures: on every parent return path the mask equals the initial one and no sigaction/chdir/environ write happened; at exec the mask is empty and all standard signals were reset; sigprocmask is never used.",
     "C13": "Solver-decided equivalence between parse_options and a transcription of reproc.h over every option record (full-width ints, every pointer combination), plus the real reproc_start on forbidden records: EINVAL with zero calls into the OS model and zero allocations.",
     "C14": "A reference life-cycle state machine checked against the real API for one (thorough: two plus one) symbolic call from every abstract handle state reached by a canonical prefix, including misuse (NULL handle, NULL/size-0 buffers, invalid streams, zero sources, second start), with CBMC's memory-safety, overflow and shift checks active on all repository code; error_string for every int.",
